@@ -1060,7 +1060,11 @@ EXT_SPECS = {'linalg.toeplitz': ext_toeplitz, 'stats.norm.pdf': ext_norm_pdf}
 
 
 def np_size(eng, st, args, kw, node):
-    return size(eng, st, args[0])
+    v = args[0]
+    if isinstance(v, TupleV) and len(v) >= 1 and all(isinstance(t, Ref) and st.heap[t.oid].ndim == 1 for t in v):
+        # np.size of the tuple returned by np.where: len(tuple) index arrays of one common length
+        return len(v) * to_z3(st.heap[v[0].oid].shape[0], INT)
+    return size(eng, st, v)
 
 
 def np_fill_diagonal(eng, st, args, kw, node):
@@ -1277,6 +1281,9 @@ def np_trace(eng, st, args, kw, node):
 def np_diag(eng, st, args, kw, node):
     """np.diag(v) for a 1-D v: the diagonal matrix (only as the right operand of np.dot, see np_dot)."""
     v = args[0]
+    if len(args) == 1 and not kw and ndim_of(eng, st, v) == 2:
+        m = as_mat(eng, st, v)          # np.diag(M) for a 2-D M: the vector of diagonal entries (read-only view in numpy; value semantics here)
+        return Row(m.shape[0], lambda q, m=m: m.fn(q, q), m.esort)
     if ndim_of(eng, st, v) != 1 or len(args) != 1 or kw:
         raise OutOfSubset('np.diag form')
     r = as_row(eng, st, v)
@@ -1296,6 +1303,8 @@ def np_square(eng, st, args, kw, node):
 
 def np_dot(eng, st, args, kw, node):
     a, b = args
+    if all(is_z3(t) or isinstance(t, (int, float)) for t in (a, b)):
+        return eng.binop(ast.Mult(), a, b, st)          # np.dot of two scalars is their product
     if isinstance(b, Mat) and getattr(b, 'diag_of', None) is not None and ndim_of(eng, st, a) == 2:
         # A . diag(v): column y of A scaled by v[y] (exact: one non-zero term per entry)
         A0, r = as_mat(eng, st, a), b.diag_of
